@@ -7,5 +7,12 @@ OutJ(a) == [kind |-> IF a.st = "Accept" THEN "Accept" ELSE "Reject", why |-> a.w
 Case == LET DS == SetToSeq({X \in DevSets : Out(m[X]) # Out(d)})
         IN [line |-> line, prec |-> prec, exp |-> OutJ(d),
             imp |-> [j \in 1..Len(DS) |-> [dev |-> SetToSeq(DS[j]), out |-> OutJ(m[DS[j]])]]]
+\* simulation: three times out of four offer only classes that keep the design automaton out of Reject, so that
+\* long valid lines (several tags and fields, escapes, strings) are reached; parameterised by the state so
+\* that TLC does not cache the random choice
+KeepsValid(c) == Step(d, Append(line, c), c, "", Len(line) + 1, Dev).st # "Reject"
+SimOfferP(h) == LET good == {c \in Offer : KeepsValid(c)}
+                IN IF d.st = "Reject" \/ good = {} \/ RandomElement(1..4) = 1 THEN Offer ELSE good
+SimOffer == SimOfferP(line)
 Export == done => PrintT(<<"TRACE", ToJson(Case)>>)
 =============================================================================
